@@ -178,7 +178,7 @@ pub fn check_case(acc: &mut Acc, op: u128, ask: u128, offer: u128, fees: [u128; 
 }
 
 pub fn run(ctx: &Ctx) -> (CheckMeta, Acc) {
-    let per_shard = ctx.scaled(ctx.tier.pick(250_000, 25_000_000));
+    let per_shard = ctx.scaled(ctx.tier.pick(1_000_000, 100_000_000));
     let n_shards = 16;
     let ph = hash_str("C02");
     let total = run_shards(ctx, n_shards, |sh, acc| {
@@ -198,7 +198,7 @@ pub fn run(ctx: &Ctx) -> (CheckMeta, Acc) {
         }
         // end-to-end part: a few real constant-product pool histories (shared driver with C01)
         if ctx.replay.as_ref().map(|r| r.history >= 1_000_000_000).unwrap_or(true) {
-            crate::mon::pools::run_cp_histories(ctx, sh, acc, ctx.tier.pick(2, 40), ctx.tier.pick(60, 150), "C02");
+            crate::mon::pools::run_cp_histories(ctx, sh, acc, ctx.tier.pick(6, 400), ctx.tier.pick(60, 150), "C02");
         }
     });
     let meta = CheckMeta {
